@@ -154,7 +154,7 @@ func isLenOf(v ssa.Value, X ssa.Value) bool {
 		return false
 	}
 	b, ok := c.Call.Value.(*ssa.Builtin)
-	if !ok || b.Name() != "len" || len(c.Call.Args) != 1 {
+	if !ok || nm(b) != "len" || len(c.Call.Args) != 1 {
 		return false
 	}
 	if c.Call.Args[0] == X || sameValueShape(c.Call.Args[0], X) {
@@ -174,7 +174,7 @@ func lenArg(v ssa.Value) (ssa.Value, bool) {
 		return nil, false
 	}
 	b, ok := c.Call.Value.(*ssa.Builtin)
-	if !ok || b.Name() != "len" || len(c.Call.Args) != 1 {
+	if !ok || nm(b) != "len" || len(c.Call.Args) != 1 {
 		return nil, false
 	}
 	return c.Call.Args[0], true
